@@ -136,6 +136,13 @@ def check_dict(rep, entry):
             r = update_in(d, p, lambda x: 9)
             if r != expa:
                 bad.append(('update_in', d0, p, expa, r))
+            if row['get'] == 'leaf':
+                # f is applied to the value that is there (also a falsy one)
+                d = copy.deepcopy(d0)
+                r = update_in(d, p, lambda x: [x, 'seen'])
+                want = json.loads(json.dumps(expa).replace('9', json.dumps([row['getv'], 'seen'])))
+                if r != want:
+                    bad.append(('update_in(f)', d0, p, want, r))
             # read back what was written
             if get_in(expa, p) != 9:
                 bad.append(('get_in(assoc)', d0, p))
@@ -152,7 +159,7 @@ def check_dict(rep, entry):
 
 
 def run(rep, tier, scratch, only=None):
-    consts = {'Keys': '{"a", "b"}', 'TreeDepth': 2, 'PathLen': 3, 'Vals': '{1, 2}'}
+    consts = {'Keys': '{"a", "b"}', 'TreeDepth': 2, 'PathLen': 3, 'Vals': '{0, 1}'}
     runs = [('Paths_ab_d2', consts)]
     if tier == 'thorough':
         runs.append(('Paths_ab_d3', dict(consts, TreeDepth=3, PathLen=3)))
